@@ -37,7 +37,7 @@ def budget(tier):
 
 
 def strategy(tier):
-    return trav.cases(big=(tier != "quick"))
+    return trav.cases(big=(tier != "quick"), scale_rate=(150 if tier == "quick" else 60))
 
 
 def enumerate_cases(tier, shard=0, nshards=1):
@@ -192,14 +192,16 @@ def _check_on(S, case, rebuild=True):
     require(dfr == exp_r, "dft_recursive-order", f"dft_recursive {dfr} != reference pre-order {exp_r} {ctx}")
     require(dfi == exp_i, "dft_iterative-order", f"dft_iterative {dfi} != reference stack order {exp_i} {ctx}")
 
-    # ---- order-free validity predicates
-    dist = _distances(N, s)
-    ds = [dist.get(x) for x in bft]
+    # ---- order-free validity predicates (cubic in the number of listed vertices: small worlds only; for scaled-up
+    #      worlds the three reference orders above are the oracle)
+    small = len(bft) <= 40
+    dist = _distances(N, s) if small else {}
+    ds = [dist.get(x) for x in bft] if small else []
     require(all(x is not None for x in ds), "bft-lists-unreachable", f"{bft}")
     require(all(ds[i] <= ds[i + 1] for i in range(len(ds) - 1)), "bft-distance-decreases", f"bft {bft} distances {ds}")
     pos = {x: i for i, x in enumerate(bft)}
     keys = []
-    for w in bft[1:]:
+    for w in (bft[1:] if small else []):
         p = min(pos[x] for x in bft if w in N(x) and pos[x] < pos[w]) if any(w in N(x) and pos[x] < pos[w] for x in bft) else None
         require(p is not None, "bft-no-listed-predecessor", f"bft {bft}: {w} has no earlier-listed predecessor")
         keys.append((p, N(bft[p]).index(w)))
@@ -207,7 +209,7 @@ def _check_on(S, case, rebuild=True):
     # pre-order rule
     listed = [dfr[0]] if dfr else []
     path = list(listed)
-    for w in dfr[1:]:
+    for w in (dfr[1:] if small else []):
         while path and not [x for x in N(path[-1]) if x not in listed]:
             path.pop()
         require(bool(path), "dft_recursive-preorder", f"{dfr}: {w} listed after the search space was exhausted")
@@ -239,9 +241,9 @@ def _check_on(S, case, rebuild=True):
     del junk
 
     # ---- classification
-    choice = False
+    choice = not small
     seen = set()
-    for x in bft:
+    for x in (bft if small else []):
         seen.add(x)
         if len({w for w in N(x) if w not in seen}) >= 2:
             choice = True
